@@ -227,6 +227,11 @@ def oneof_order(obs: Obs, ref: RefResult) -> Optional[str]:
                 if not fails or min(fails) > first_start[cj]:
                     if ci in spec.ancestors(cj) or cj in spec.ancestors(ci):
                         continue
+                    if not fails:
+                        fin = ref.final.get(ci)
+                        causes = getattr(fin, "causes", None) or []
+                        if causes and all(len(c) >= 2 and c[1] in ("nolabel", "oneof", "rec") for c in causes):
+                            continue  # the candidate failed without any node body raising (e.g. a label without a case)
                     return "candidate_started_early:%s" % cj
     return None
 
